@@ -1,7 +1,70 @@
-"""Oracles (DESIGN §2.5)."""
+"""Oracles (DESIGN §2.5): refinement of the math fallback under persistent system-level sympy faults."""
 from __future__ import annotations
+
+from sim.prng import derive
+
+
+def key_faulted(plan: dict, key) -> bool:
+    """same decision function as sim.faults.SympyFaults.key_faulted"""
+    rate = plan.get("groebner", 0)
+    if not rate or key is None:
+        return False
+    return derive(plan["seed"], "groebner", *key) % 10000 < rate * 10000
 
 
 def refinement(runs: dict, plan: dict, faults) -> dict:
-    """placeholder, replaced below"""
-    return {"verdict": "skipped"}
+    """With only `math` enabled the loop body rewrites every statement independently and keeps
+    positions.  The fault-free run gives per position the chain s0 -> s1 -> ... -> sk of loop
+    states and per (iteration, position) the key simplify_equalities saw.  Under persistent
+    failures of groebner the only lawful final loop state is, per position, the first chain
+    member whose key is faulted (iteration 0: the exlined form, i.e. what `--enable none`
+    gives), else sk.  Returns {"verdict": ok | violation | blind | n/a, ...}."""
+    free, fault, none = runs["free"], runs["fault"], runs.get("none")
+    if plan.get("solve"):
+        return {"verdict": "n/a", "why": "per-variable faults: only the weak oracle applies"}
+    for name, r in (("free", free), ("fault", fault), ("none", none)):
+        if r is None or not r["res"]["outcome"].startswith("OK"):
+            return {"verdict": "n/a", "why": f"{name} run did not return: {None if r is None else r['res']['outcome']}"}
+    if faults is None or faults.blind:
+        return {"verdict": "blind", "why": "sympy seam not found (ngo.math_simplification.groebner/solve/Goebner)"}
+    if not free["states"] or free["final"] is None or fault["final"] is None or none["final"] is None:
+        return {"verdict": "blind", "why": "outer loop not traced"}
+    n = len(free["states"][0])
+    for r in (free, fault, none):
+        if any(len(s) != n for s in r["states"]) or len(r["final"]) != n:
+            return {"verdict": "blind", "why": "number of statements changes inside the loop"}
+    # keys per (iteration, position)
+    per_iter: dict = {}
+    for it, key, _f, called in free["keys"]:
+        per_iter.setdefault(it, []).append((key, called))
+    keymap: dict = {}
+    for it, lst in per_iter.items():
+        if it < 0 or it >= len(free["types"]):
+            return {"verdict": "blind", "why": "math was called outside a traced iteration"}
+        pos = [p for p, t in enumerate(free["types"][it]) if t in ("Rule", "Minimize")]
+        if len(pos) != len(lst):
+            return {"verdict": "blind", "why": "calls of simplify_equalities do not match the rule statements"}
+        for p, kc in zip(pos, lst):
+            keymap[(it, p)] = kc
+    expected = []
+    hit = 0
+    for p in range(n):
+        exp = free["final"][p]
+        for it in range(len(free["states"])):
+            kc = keymap.get((it, p))
+            if kc is not None and kc[1] and key_faulted(plan, tuple(kc[0]) if kc[0] is not None else None):
+                exp = none["final"][p] if it == 0 else free["states"][it][p]
+                hit += 1
+                break
+        expected.append(exp)
+    if expected != fault["final"]:
+        p = next(i for i in range(n) if expected[i] != fault["final"][i])
+        return {
+            "verdict": "violation",
+            "position": p,
+            "expected": expected[p],
+            "got": fault["final"][p],
+            "fault_free": free["final"][p],
+            "positions_hit": hit,
+        }
+    return {"verdict": "ok", "positions_hit": hit, "changed_by_fault": sum(1 for a, b in zip(free["final"], fault["final"]) if a != b)}
